@@ -36,7 +36,8 @@ NCH = 3
 
 def make(c):
     """-> layout, keyword dict (what the file says)"""
-    names = ['FSC', 'FL1', 'FL2']
+    NCH = c.get('nch', 3)
+    names = ['FSC', 'FL1', 'FL2'] + ['FL%d' % (k + 3) for k in range(NCH - 3)]
     tc = c.get('timech')
     if tc == 'two':
         names = ['Time', 'FL1', 'TIME']
@@ -67,9 +68,9 @@ def make(c):
             add('BD$WORD%d' % (12 + n), val.get('BD$WORD%d' % (12 + n), str(400 + n)))
         if 'CYTEK' in present:
             add('CytekP%02dG' % n, val.get('CytekP%02dG' % n, str(2.25 * n)))
-    pne = ['0,0', '4,1', '3.5,0']
-    ranges = [1024, 256, 1000]
-    events = [[5, 1, 10], [900, 200, 20], [17, 255, 70]]
+    pne = (['0,0', '4,1', '3.5,0'] + ['4.0,0.0', '2,0.00', '0.0,0.0', '3,1.0', '4,0'] * 5)[:NCH]
+    ranges = ([1024, 256, 1000] + [1024, 4096, 512] * 8)[:NCH]
+    events = [([5, 1, 10] + [3] * 30)[:NCH], ([900, 200, 20] + [4] * 30)[:NCH], ([17, 255, 70] + [5] * 30)[:NCH]]
     lay = dict(version=c.get('version', 'FCS3.0'), datatype='I', byteord='4,3,2,1', bits=[16] * NCH, ranges=ranges,
                names=names, pne=pne, events=events, extra=extra)
     return lay, kw, names, pne, ranges, events
@@ -145,6 +146,7 @@ def ref_float(s):
 
 
 def metaref(kw, names, pne, ranges, events):
+    NCH = len(names)
     out = {}
     if '$TIMESTEP' in kw:
         out['time_step'] = ref_float(kw['$TIMESTEP'])
@@ -214,6 +216,12 @@ def cases(tier, seed):
             for tc in TIMECH:
                 for v in versions:
                     yield dict(kind='presence', present=present, creator=cr, timech=tc, version=v)
+    # (A2) channel counts of ten and more (two-digit vendor keywords) x per-channel keyword groups x creators
+    for nch in (9, 10, 11, 23):
+        for bits in itertools.product([False, True], repeat=5):
+            present = [k for k, b in zip(['PnV', 'PnG', 'PnS', 'BDWORD', 'CYTEK'], bits) if b]
+            for cr in CREATORS:
+                yield dict(kind='manychannels', nch=nch, present=present, creator=cr, timech=None)
     # (B) formats
     for bt in TIMEFMT:
         for et in TIMEFMT:
